@@ -63,6 +63,10 @@ type family struct {
 	Kind string `json:"kind"` // minute | hour : which rate limiter carries pol.lim
 	D    int64  `json:"d"`    // model units per slot
 	File string `json:"file"`
+	// Probe: read GetTokenUsage around every request to judge "a rate-limited request consumes
+	// no quota". A usage lookup runs maybeReset itself, so it is an extra operation on the
+	// tracker: families replayed without it leave the tracker untouched between requests.
+	Probe bool `json:"probe"`
 }
 type finding struct {
 	Signature string         `json:"signature"`
@@ -230,7 +234,7 @@ func replayFamily(f family, sh shape, scs []scenario, res *result) {
 					"event": j, "real_offset_ns": rt, "slot_ns": sh.SlotNs, "window_ns": sh.WindowNs, "ring": sh.Ring}
 			}
 			var uh0, ud0 int
-			trackQuota := mh > 0 || md > 0
+			trackQuota := f.Probe && (mh > 0 || md > 0)
 			if trackQuota {
 				u := mgr.GetTokenUsage(tok)
 				uh0, ud0 = u.QueriesThisHour, u.QueriesThisDay
@@ -415,7 +419,11 @@ func main() {
 			if err := json.Unmarshal(b, &scs); err != nil {
 				fatal("%v", err)
 			}
-			res.Scenarios[f.Name+"/"+f.Kind] = len(scs)
+			key := f.Name + "/" + f.Kind
+			if f.Probe {
+				key += "/usage-probed"
+			}
+			res.Scenarios[key] = len(scs)
 			replayFamily(f, res.Shapes[f.Kind], scs, res)
 			if res.Infra != "" {
 				break
